@@ -32,7 +32,7 @@ macro_rules | `(tactic| sk_prim) => `(tactic| first
   | exact sk_requireNonStatic ‹_›
   | exact sk_requireEof ‹_›
   | exact sk_requireInitEof ‹_›
-  | exact sk_requireSome ‹_› _
+  | exact sk_requireSome ‹_› _ ‹_›
   | exact sk_assumeNotEof ‹_›
   | exact sk_gasOrFail ‹_› _
   | exact sk_refund ‹_› _
@@ -44,7 +44,7 @@ macro_rules | `(tactic| sk_prim) => `(tactic| first
   | exact sk_push ‹_› _
   | exact sk_stackCall ‹_› _
   | exact sk_stackCallAdv ‹_› _ _
-  | exact sk_asUsizeOrFail ‹_› _ _
+  | exact sk_asUsizeOrFail ‹_› _ _ (by first | decide | assumption)
   | exact sk_resizeMem ‹_› _ _
   | exact sk_memSlice ‹_› _ _
   | exact sk_memSliceRange ‹_› _ _
@@ -58,8 +58,8 @@ macro_rules | `(tactic| sk_prim) => `(tactic| first
   | exact sk_jumpRel ‹_› _
   | exact sk_getEof ‹_›
   | exact sk_loadEofCode ‹_› _ _
-  | exact sk_haltWith ‹_› _
-  | exact sk_haltOut ‹_› _ _
+  | exact sk_haltWith ‹_› _ (by first | decide | assumption)
+  | exact sk_haltOut ‹_› _ _ (by first | decide | assumption)
   | exact sk_faultWith _
   | exact sk_pure ‹_› trivial
   | exact sk_modifyS ‹_› _ ⟨rfl, rfl, Nat.le_refl _⟩)
@@ -104,8 +104,8 @@ theorem sk_teropI (h : KeptB fl s0 s) (g : Nat) (hg : 1 ≤ g) (f) : SKeep true 
 theorem sk_expI (h : KeptB fl s0 s) : SKeep true s0 T (expI s) := by unfold expI; sk_auto
 
 theorem sk_jumpInner (h : KeptB fl s0 s) (t : Nat) : SKeep fl s0 T (jumpInner t s) := by unfold jumpInner; sk_auto
-theorem sk_returnInner {fl' : Bool} (h : KeptB fl s0 s) (r : IResult) : SKeep fl' s0 T (returnInner r s) := by unfold returnInner; sk_auto
-macro_rules | `(tactic| sk_prim) => `(tactic| first | exact sk_jumpInner ‹_› _ | exact sk_returnInner ‹_› _)
+theorem sk_returnInner {fl' : Bool} (h : KeptB fl s0 s) (r : IResult) (hr : RGood r) : SKeep fl' s0 T (returnInner r s) := by unfold returnInner; sk_auto
+macro_rules | `(tactic| sk_prim) => `(tactic| first | exact sk_jumpInner ‹_› _ | exact sk_returnInner ‹_› _ (by first | decide | assumption))
 attribute [local irreducible] jumpInner returnInner
 
 theorem sk_copyToMem (h : KeptB fl s0 s) (data : IState → List Nat) (guard : M Unit)
@@ -223,7 +223,7 @@ theorem sk_returnContractI (h : KeptB fl s0 s) : SKeep true s0 T (returnContract
 theorem sk_execPure (i : Instr) (m : M Unit) (hm : execPure i = some m) (h : KeptB fl s0 s) : SKeep true s0 T (m s) := by
   cases i <;> simp only [execPure, Option.some.injEq, reduceCtorEq] at hm <;> subst hm
   all_goals first
-    | exact sk_haltWith h _
+    | exact sk_haltWith h _ (by decide)
     | exact sk_returnContractI h
     | exact sk_rjumpI h | exact sk_rjumpiI h | exact sk_rjumpvI h | exact sk_callfI h | exact sk_retfI h
     | exact sk_jumpfI h | exact sk_dupnI h | exact sk_swapnI h | exact sk_exchangeI h
@@ -238,7 +238,7 @@ theorem sk_execPure (i : Instr) (m : M Unit) (hm : execPure i = some m) (h : Kep
     | exact sk_mloadI h | exact sk_mstoreI h | exact sk_mstore8I h | exact sk_mcopyI h
     | exact sk_jumpI h | exact sk_jumpiI h
     | exact sk_mono (sk_gasCharge1 h _ (by decide)) (fun _ _ _ _ => trivial)
-    | exact sk_returnInner h _ | exact sk_revertI h
+    | exact sk_returnInner h _ (by decide) | exact sk_revertI h
 
 end helpers
 end Revm.Proofs.EvmLink
